@@ -409,11 +409,12 @@ static void rules_R1_R2_R3(void)
 {
 	int e, c, i;
 	unsigned last_tx[3] = { 0, 0, 0 };
+	unsigned conf_tx[3] = { 0, 0, 0 };      /* last value received twice in a row */
+	unsigned last_nz[3] = { 0, 0, 0 }, conf_nz[3] = { 0, 0, 0 };    /* the same, zero (= no CNI) receptions ignored */
 	int zeroed[3] = { 1, 1, 1 };
-	char last_name[36] = "", last_call[36] = "";
-	int name_zeroed = 1, call_zeroed = 1;
+	char last_call[36] = "", conf_call[36] = "";
+	int call_zeroed = 1;
 	int upto = -1;                  /* receptions folded into last_tx */
-	int last_nid_ev = -1, blank_since_nid = 1;
 	int last_asp_ev = -1, revoked_since_asp = 1;
 	int first_nuid[2048]; /* by station id */
 	memset(first_nuid, 0, sizeof first_nuid);
@@ -423,9 +424,10 @@ static void rules_R1_R2_R3(void)
 		const struct rx *x;
 		/* fold receptions up to and including the one that raised this event */
 		for (i = upto + 1; i <= v->rx && i < n_rx; i++) {
-			if (rxs[i].carrier <= CR_8302) { last_tx[rxs[i].carrier] = rxs[i].cni; zeroed[rxs[i].carrier] = 0; }
-			if (rxs[i].carrier == CR_XNAME) { strcpy(last_name, rxs[i].str); name_zeroed = 0; }
-			if (rxs[i].carrier == CR_XCALL) { strcpy(last_call, rxs[i].str); call_zeroed = 0; }
+			int p = prev_on_carrier(i), rep = p >= 0 && same_value(&rxs[p], &rxs[i]);
+			if (rxs[i].carrier <= CR_8302) { last_tx[rxs[i].carrier] = rxs[i].cni; zeroed[rxs[i].carrier] = 0; if (rep) conf_tx[rxs[i].carrier] = rxs[i].cni;
+				if (rxs[i].cni) { last_nz[rxs[i].carrier] = rxs[i].cni; if (rep) conf_nz[rxs[i].carrier] = rxs[i].cni; } }
+			if (rxs[i].carrier == CR_XCALL) { strcpy(last_call, rxs[i].str); if (rep) { strcpy(conf_call, rxs[i].str); call_zeroed = 0; } }
 		}
 		if (v->rx > upto) upto = v->rx;
 		if (v->rx < 0 || v->rx >= n_rx) {
@@ -442,9 +444,8 @@ static void rules_R1_R2_R3(void)
 			vf_count(v->type == VBI_EVENT_NETWORK ? (blank ? "ev_network_blank" : "ev_network") : (blank ? "ev_network_id_blank" : "ev_network_id"), 1);
 			v->blank = blank;
 			if (blank) {
-				for (c = 0; c < 3; c++) zeroed[c] = 1;
-				name_zeroed = call_zeroed = 1;
-				blank_since_nid = 1;
+				for (c = 0; c < 3; c++) { zeroed[c] = 1; conf_tx[c] = last_nz[c] = conf_nz[c] = 0; }
+				call_zeroed = 1; conf_call[0] = 0;
 				break;
 			}
 			if (x->carrier == CR_WSS || x->carrier == CR_XCALL) {
@@ -454,9 +455,12 @@ static void rules_R1_R2_R3(void)
 			if (x->carrier <= CR_8302) {
 				int got[3] = { n->cni_vps, n->cni_8301, n->cni_8302 };
 				const struct vbi_cni_entry *st = ref_lookup(x->carrier, x->cni);
-				/* R1: values */
+				/* R1: values.  The announcing carrier: the value being decoded.  The other carriers:
+				 * what was last received there, or last received twice in a row (the statement wants
+				 * identifiers announced only after a repeat), or zero = unknown after a revocation. */
 				for (c = 0; c < 3; c++) {
 					if ((unsigned)got[c] == last_tx[c]) continue;
+					if (c != x->carrier && (unsigned)got[c] == conf_tx[c] && (conf_tx[c] || zeroed[c])) continue;
 					if (c != x->carrier && got[c] == 0 && zeroed[c]) continue;
 					vf_fail(c == x->carrier ? "model:C13:R1:announced-cni-differs" : "model:C13:R1:other-cni-differs",
 						"%s event during %s carries cni[%s]=0x%04x, last transmitted on that carrier 0x%04x; event cni_vps=%04x cni_8301=%04x cni_8302=%04x nuid=%u name='%s'",
@@ -470,20 +474,35 @@ static void rules_R1_R2_R3(void)
 						else if (first_nuid[st->id] != (int)n->nuid)
 							vf_fail("model:C13:R1:nuid-unstable", "station '%s' announced with nuid %u, earlier %d", st->name, n->nuid, first_nuid[st->id]);
 					}
-				} else if (n->nuid != 0 || n->name[0])
-					vf_fail("model:C13:R1:unknown-station-named", "%s event during %s (CNI not in the table) carries nuid=%u name='%s'", tn, rx_str(v->rx), n->nuid, n->name);
+				} else if (n->nuid != 0 || n->name[0]) {
+					/* the announcing CNI is not in the table: no station, or the station that
+					 * the CNI of another carrier stands for */
+					int okc = 0;
+					for (c = 0; c < 3; c++) {
+						/* the CNI that carrier sent last, or sent last twice in a row (a single
+						 * deviating word does not undo an identification); zero is no CNI */
+						const struct vbi_cni_entry *o = c != x->carrier && last_nz[c] ? ref_lookup(c, last_nz[c]) : NULL;
+						const struct vbi_cni_entry *o2 = c != x->carrier && conf_nz[c] ? ref_lookup(c, conf_nz[c]) : NULL;
+						if (o && n->nuid != 0 && !strncmp((const char *)n->name, o->name, 60)) okc = 1;
+						if (o2 && n->nuid != 0 && !strncmp((const char *)n->name, o2->name, 60)) okc = 1;
+					}
+					if (!okc)
+						vf_fail("model:C13:R1:unknown-station-named", "%s event during %s (CNI not in the table) carries nuid=%u name='%s'; event cni_vps=%04x cni_8301=%04x cni_8302=%04x",
+							tn, rx_str(v->rx), n->nuid, n->name, n->cni_vps, n->cni_8301, n->cni_8302);
+				}
 			} else {        /* XDS name */
 				if (strcmp((const char *)n->name, x->str))
 					vf_fail("model:C13:R1:xds-name-differs", "%s event during %s carries name '%s'", tn, rx_str(v->rx), n->name);
-				if (strcmp((const char *)n->call, last_call) && !(n->call[0] == 0 && call_zeroed))
-					vf_fail("model:C13:R1:xds-call-differs", "%s event during %s carries call letters '%s', last transmitted '%s'", tn, rx_str(v->rx), n->call, last_call);
-				if (n->call[0]) {
-					/* R2 for the call letters that go into the announcement */
-					int q, q1 = -1, q2 = -1;
-					for (q = v->rx; q >= 0 && q2 < 0; q--) if (rxs[q].carrier == CR_XCALL) { if (q1 < 0) q1 = q; else q2 = q; }
-					if (q1 >= 0 && !(q2 >= 0 && same_value(&rxs[q1], &rxs[q2])) && v->type == VBI_EVENT_NETWORK && !(vf_param[7] & 2))
-						vf_fail("model:C13:R2:xds:call-letters-announced-without-repeat", "NETWORK event during %s announces call letters '%s' received once: %s", rx_str(v->rx), n->call, carrier_tail(q1));
-				}
+				/* call letters: those last received twice in a row (none: empty); the ones received
+				 * last are the transmitted value too, but announcing them is R2's business */
+				if (!strcmp((const char *)n->call, conf_call) && (conf_call[0] || call_zeroed)) ;
+				else if (n->call[0] == 0 && call_zeroed) ;
+				else if (n->call[0] && !strcmp((const char *)n->call, last_call)) {
+					int q;
+					for (q = v->rx; q >= 0; q--) if (rxs[q].carrier == CR_XCALL) break;
+					vf_fail("model:C13:R2:xds:call-letters-announced-without-repeat", "%s event during %s announces call letters '%s' received once: %s", tn, rx_str(v->rx), n->call, q >= 0 ? carrier_tail(q) : "-");
+				} else
+					vf_fail("model:C13:R1:xds-call-differs", "%s event during %s carries call letters '%s', last transmitted '%s', last transmitted twice in a row '%s'", tn, rx_str(v->rx), n->call, last_call, conf_call);
 				if (n->nuid == 0)
 					vf_fail("model:C13:R1:xds-nuid-zero", "%s event during %s carries nuid 0", tn, rx_str(v->rx));
 			}
@@ -497,21 +516,21 @@ static void rules_R1_R2_R3(void)
 						tn, n->nuid, rx_str(v->rx), carrier_tail(v->rx));
 			}
 			vf_sig("%s by=%s pattern=%02x between=%02x dom=%s", tn, cr_name[x->carrier], sig_pattern(v->rx), between_mask(v->rx) & 0x3f, dom_name[domain]);
-			/* R3: not again while the same values keep arriving */
-			if (v->type == VBI_EVENT_NETWORK_ID) {
-				if (last_nid_ev >= 0 && !blank_since_nid) {
-					int t1 = evs[last_nid_ev].rx, changed = 0;
-					for (i = t1 + 1; i <= v->rx; i++) {
-						int p = prev_on_carrier(i);
-						if (rxs[i].carrier == CR_WSS) continue;
-						/* a revocation (blank event) in between makes the decoder forget what it had */
-						if (p < 0 || !same_value(&rxs[p], &rxs[i]) || blank_between(p, i)) changed = 1;
-					}
+			/* R3: the same announcement is not made again while the same values keep arriving: between
+			 * two identical events of one type some reception must have been the first or the second
+			 * (confirming) one of a run on its carrier */
+			{
+				int e2, changed = 0;
+				for (e2 = e - 1; e2 >= 0; e2--)
+					if (evs[e2].type == v->type && !evs[e2].blank && evs[e2].rx >= 0 && same_announcement(&evs[e2].net, n)) break;
+				if (e2 >= 0) {
+					for (i = evs[e2].rx + 1; i <= v->rx; i++)
+						if (rxs[i].carrier != CR_WSS && input_change(i)) changed = 1;
 					if (!changed)
-						vf_fail(dkey("model:C13:R3:network-id-repeated"), "NETWORK_ID raised again by %s although every reception since the previous NETWORK_ID (%s) repeated its carrier's value",
-							rx_str(v->rx), rx_str(t1));
+						vf_fail(dkey(v->type == VBI_EVENT_NETWORK ? "model:C13:R3:network-repeated" : "model:C13:R3:network-id-repeated"),
+							"%s (nuid %u vps=%03x 8301=%04x 8302=%04x name='%s' call='%s') raised again by %s although every reception since the same announcement (by %s) repeated its carrier's value",
+							tn, n->nuid, n->cni_vps, n->cni_8301, n->cni_8302, n->name, n->call, rx_str(v->rx), rx_str(evs[e2].rx));
 				}
-				last_nid_ev = e; blank_since_nid = 0;
 			}
 			break;
 		}
@@ -660,8 +679,30 @@ static void fill_common(struct rx *x, const struct prog *pg, struct clock_ *ck)
 	if (x->carrier == CR_8301) { ck->sec++; if (ck->sec >= 86400) { ck->sec = 0; ck->mjd++; } }
 }
 
-/* 625 line histories */
-static int run_hist(struct vf_rng *r)
+/* NETWORK events in [rx_from, rx_to) that change or revoke an identification made before: a station
+ * was identified (the last NETWORK event carried a nuid) and this one is blank or carries another nuid */
+static int count_network_changes(int rx_from, int rx_to, int *first_rx)
+{
+	int e, n = 0;
+	unsigned cur = 0;
+	for (e = 0; e < n_ev; e++) {
+		if (evs[e].type != VBI_EVENT_NETWORK) continue;
+		if (cur != 0 && evs[e].net.nuid != cur && evs[e].rx >= rx_from && evs[e].rx < rx_to) {
+			if (!n && first_rx) *first_rx = evs[e].rx;
+			n++;
+		}
+		cur = evs[e].net.nuid;
+	}
+	return n;
+}
+
+/* What the twin of a history (the same history without its single deviating receptions) did in the
+ * steady part of each phase. */
+struct twin { int quiet[8]; };
+
+/* 625 line histories.  twin: leave out the single deviations and record the outcome in *tw;
+ * otherwise tw (if not NULL) is the record of the twin that was run before. */
+static int run_hist(struct vf_rng *r, int twin, struct twin *tw)
 {
 	int active[4] = { 0, 0, 0, 0 }, nact = 0, c, i, phase, nphase, ncar;
 	const struct station *st = NULL;
@@ -675,12 +716,15 @@ static int run_hist(struct vf_rng *r)
 	const struct station *st_prev = NULL;
 	unsigned last_clean[3] = { 0, 0, 0 };
 
+	{
+		unsigned d = vf_below(r, 20);
+		domain = d < 10 ? D_KNOWN : d < 13 ? D_UNKNOWN : d < 16 ? D_PARTIAL : D_DISAGREE;
+	}
+	if (twin && domain != D_DISAGREE) return -1;    /* judged directly, no twin needed */
 	new_decoder();
 	if (!vbi) return 0;
 	vf_bytes(r, vps_background, 13);
 	vps_background[2] &= 0xEF;      /* byte 5 bit 3: only meaningful with CNI 0xDC3, which is not used */
-	domain = vf_chance(r, 6, 10) ? 0 : vf_chance(r, 1, 2) ? 1 : 2;
-	if ((vf_param[7] & 1) && domain == 2) domain = 0;       /* development aid, see design note */
 	rand_prog(r, &pg); rand_wss(r, &wss);
 	ck.mjd = vf_range(r, 40587, 70000); ck.sec = vf_range(r, 0, 86399); ck.lto = vf_range(r, -24, 26);
 	nphase = vf_range(r, 1, 4);
@@ -693,28 +737,32 @@ static int run_hist(struct vf_rng *r)
 		if (phase == 0 || vf_chance(r, 3, 4)) {
 			const struct station *ns;
 			do ns = &stations[vf_below(r, vf_chance(r, 2, 3) ? (unsigned)n_multi : (unsigned)n_stations)];
-			while ((st && ns->id == st->id) || ((vf_param[7] & 8) && st_prev && ns->id == st_prev->id));
+			while (st && ns->id == st->id);
 			/* zapping back to the station before the last one */
-			if (st_prev && st_prev->id != st->id && vf_chance(r, 1, 4) && !(vf_param[7] & 8)) ns = st_prev;
+			if (st_prev && st_prev->id != st->id && vf_chance(r, 1, 4)) ns = st_prev;
 			st_prev = st;
 			st = ns;
 			nact = 0;
 			for (c = 0; c < 3; c++) {
 				active[c] = 0; known[c] = 0;
-				if (domain == 0) { if (st->ok[c] && vf_chance(r, 4, 5)) { active[c] = 1; val[c] = st->cni[c]; known[c] = 1; } }
-				else if (domain == 1) { if (vf_chance(r, 1, 2)) { active[c] = 1; val[c] = unknown_cni(r, c); } }
-				else if (st->ok[c]) { active[c] = 1; val[c] = st->cni[c]; known[c] = 1; }
-				else if (vf_chance(r, 2, 3)) { active[c] = 1; val[c] = vf_chance(r, 1, 4) ? 0 : unknown_cni(r, c); }
+				unsigned u = unknown_cni(r, c);         /* drawn always: same stream in every domain */
+				int pick = (int)vf_below(r, 60);
+				if (domain == D_KNOWN) { if (st->ok[c] && pick < 48) { active[c] = 1; val[c] = st->cni[c]; known[c] = 1; } }
+				else if (domain == D_UNKNOWN) { if (pick < 30) { active[c] = 1; val[c] = u; } }
+				else if (st->ok[c] && (domain == D_DISAGREE || pick < 40)) { active[c] = 1; val[c] = st->cni[c]; known[c] = 1; }
+				else if (domain == D_PARTIAL) { if (pick % 4) { active[c] = 1; val[c] = 0; } }
+				else if (pick < 40) { active[c] = 1; val[c] = (pick % 4) ? u : 0; }
 				nact += active[c];
 			}
-			if (domain == 2) {
-				/* make sure there is a conflict: one carrier known, another one not */
-				int k = 0, u = 0;
-				for (c = 0; c < 3; c++) { k += active[c] && known[c]; u += active[c] && !known[c]; }
-				if (!u) { for (c = 0; c < 3; c++) if (!st->ok[c]) { active[c] = 1; val[c] = unknown_cni(r, c); nact++; u = 1; break; } }
-				if (!u) { for (c = 2; c >= 0; c--) if (active[c]) { val[c] = unknown_cni(r, c); known[c] = 0; break; } }
+			if (domain == D_PARTIAL || domain == D_DISAGREE) {
+				/* make sure of one carrier naming the station and one carrier of the other kind */
+				int k = 0, u = 0, kc = -1;
+				for (c = 0; c < 3; c++) { k += active[c] && known[c]; u += active[c] && !known[c] && (val[c] != 0 || domain == D_PARTIAL); }
+				if (!k) for (c = 0; c < 3; c++) if (st->ok[c]) { if (!active[c]) nact++; active[c] = 1; val[c] = st->cni[c]; known[c] = 1; k = 1; break; }
+				for (c = 0; c < 3; c++) if (active[c] && known[c]) kc = c;
+				if (!u) for (c = 2; c >= 0; c--) if (c != kc) { if (!active[c]) nact++; active[c] = 1; known[c] = 0; val[c] = domain == D_PARTIAL ? 0 : unknown_cni(r, c); break; }
 			}
-			if (!nact) { for (c = 0; c < 3; c++) if (domain == 1 || st->ok[c]) { active[c] = 1; val[c] = domain == 1 ? unknown_cni(r, c) : st->cni[c]; known[c] = domain != 1; nact = 1; break; } }
+			if (!nact) { for (c = 0; c < 3; c++) if (domain == D_UNKNOWN || st->ok[c]) { active[c] = 1; val[c] = domain == D_UNKNOWN ? unknown_cni(r, c) : st->cni[c]; known[c] = domain != D_UNKNOWN; nact = 1; break; } }
 			ph[phase].changed_station = phase > 0;
 		}
 		/* A carrier that was silent during the previous station and now carries what it carried
@@ -726,9 +774,9 @@ static int run_hist(struct vf_rng *r)
 		ncar = nact + active[CR_WSS];
 		ph[phase].start = n_rx;
 		ph[phase].prev_known = prev_dom_known && prev_id;
-		ph[phase].now_known = (domain == 0);
+		ph[phase].now_known = (domain == D_KNOWN || domain == D_PARTIAL);
 		ph[phase].probe_before = probe;
-		o += snprintf(desc + o, sizeof desc - (size_t)o, "[phase %d %s '%s' vps=%s%03x 8301=%s%04x 8302=%s%04x wss=%d] ", phase, dom_name[domain], domain == 1 ? "?" : st->name,
+		o += snprintf(desc + o, sizeof desc - (size_t)o, "[phase %d %s '%s' vps=%s%03x 8301=%s%04x 8302=%s%04x wss=%d] ", phase, dom_name[domain], domain == D_UNKNOWN ? "?" : st->name,
 			active[0] ? "" : "-", val[0], active[1] ? "" : "-", val[1], active[2] ? "" : "-", val[2], active[3]);
 		if (o > (int)sizeof desc - 200) o = (int)sizeof desc - 200;
 
@@ -775,7 +823,10 @@ static int run_hist(struct vf_rng *r)
 					default: d = 0; break;
 					}
 					if ((d & 0xFFF) == 0xDC3) d ^= 4;
-					if (d != val[c]) { x->cni = d; x->deviant = 1; cooldown[c] = 3; x->station = ref_lookup(c, d) ? ref_lookup(c, d)->id : 0; }
+					if (d != val[c]) {
+						cooldown[c] = 3;
+						if (!twin) { x->cni = d; x->deviant = 1; x->station = ref_lookup(c, d) ? ref_lookup(c, d)->id : 0; }
+					}
 				}
 				/* genuine programme change now and then (not a station change) */
 				if (vf_chance(r, 1, 15)) rand_prog(r, &pg);
@@ -784,7 +835,8 @@ static int run_hist(struct vf_rng *r)
 				if (!cooldown[c] && vf_chance(r, 1, 8)) {
 					struct tx_wss d = wss;
 					if (vf_chance(r, 1, 2)) d.bad_parity = 1; else { d.format = (wss.format + 1 + (int)vf_below(r, 7)) & 7; d.film ^= (int)vf_below(r, 2); }
-					x->wss = d; x->deviant = 1; cooldown[c] = 4;
+					cooldown[c] = 4;
+					if (!twin) { x->wss = d; x->deviant = 1; }
 				} else if (vf_chance(r, 1, 12)) {
 					/* genuine format change, sometimes with wrong parity throughout */
 					rand_wss(r, &wss); wss.bad_parity = vf_chance(r, 1, 5);
@@ -801,7 +853,7 @@ static int run_hist(struct vf_rng *r)
 	(void)probe_phase;
 	idle_frames(3);
 
-	vf_sample("%s", desc);
+	if (!twin) vf_sample("%s", desc);
 	rules_R1_R2_R3();
 
 	/* R4 / R5 over the phases */
@@ -810,8 +862,37 @@ static int run_hist(struct vf_rng *r)
 		int n_after = count_network_events(ph[phase].settled, ph[phase].end, &first);
 		int ndev = count_deviants(ph[phase].settled, ph[phase].end);
 		int stale = 0, q;
-		/* once the decoder has missed a station change (below), the phase is judged under that key */
-		for (q = 0; q <= phase; q++) if (ph[q].changed_station) stale = ph[q].stale;
+		/* once the decoder may have missed a station change (below), what it does later in the history
+		 * follows from that: this phase and all later ones are judged under that key */
+		for (q = 0; q <= phase; q++) if (ph[q].stale) stale = 1;
+		if (twin) {
+			tw->quiet[phase] = n_after == 0 && ph[phase].probe_cached_at_end;
+			continue;
+		}
+		if (domain == D_DISAGREE) {
+			/* The statement does not say which station is "the identified" one while the carriers
+			 * disagree, so NETWORK events as such are not judged here.  What it does say is that
+			 * single deviations cause neither a network change nor a cleared cache: judged against
+			 * the twin history, which differs in nothing but the single deviations. */
+			if (!tw || !tw->quiet[phase] || !ndev) {
+				vf_count("steady_windows_unjudged", 1);
+			} else {
+				int n_chg = count_network_changes(ph[phase].settled, ph[phase].end, &first);
+				if (n_chg > 0)
+					vf_fail(stale ? "model:C13:R4:network-event-after-single-deviation:stale-cni-of-silent-carrier" : dkey("model:C13:R4:network-event-after-single-deviation"),
+						"%d NETWORK event(s) changing or revoking the identification in the steady part of phase %d (receptions %d..%d, %d single deviations, no station change), first raised by %s; carrier history: %s; the same history without the single deviations raises no NETWORK event there and keeps the probe page; %s",
+						n_chg, phase, ph[phase].settled, ph[phase].end - 1, ndev, rx_str(first), carrier_tail(first), desc);
+				if (!ph[phase].probe_cached_at_end)
+					vf_fail(stale ? "model:C13:R4:cache-cleared-after-single-deviation:stale-cni-of-silent-carrier" : dkey("model:C13:R4:cache-cleared-after-single-deviation"),
+						"probe page %x cached after the station had settled is gone at the end of phase %d (receptions %d..%d, %d single deviations, no station change); the same history without the single deviations keeps it; %s",
+						ph[phase].probe, phase, ph[phase].settled, ph[phase].end - 1, ndev, desc);
+				vf_count("steady_windows_judged_against_twin", 1);
+				vf_count("single_deviations", ndev);
+				vf_sig("R4 dom=%s ndev=%d carriers=%d", dom_name[domain], ndev > 3 ? 3 : ndev, nact);
+			}
+			if (phase > 0 && ph[phase].changed_station) vf_count("station_changes_unjudged", 1);
+			continue;
+		}
 		if (n_after > 0) {
 			vf_fail(stale ? "model:C13:R4:network-event-after-single-deviation:stale-cni-of-silent-carrier" : dkey(ndev ? "model:C13:R4:network-event-after-single-deviation" : "model:C13:network-event-without-change"), "%d NETWORK event(s) in the steady part of phase %d (receptions %d..%d, %d single deviations, no station change), first raised by %s; carrier history: %s; %s",
 				n_after, phase, ph[phase].settled, ph[phase].end - 1, ndev, rx_str(first), carrier_tail(first), desc);
@@ -823,18 +904,18 @@ static int run_hist(struct vf_rng *r)
 		vf_count("steady_windows", 1);
 		vf_count("single_deviations", ndev);
 		if (ndev) vf_sig("R4 dom=%s ndev=%d carriers=%d", dom_name[domain], ndev > 3 ? 3 : ndev, nact);
-		if (phase > 0 && ph[phase].changed_station && domain == 0) {
+		if (phase > 0 && ph[phase].changed_station && (domain == D_KNOWN || domain == D_PARTIAL)) {
 			int n_change = count_network_events(ph[phase].start, ph[phase].settled, NULL);
 			vf_count("station_changes_known_to_known", 1);
 			if (ph[phase].stale) vf_count("station_changes_back_to_stale_cni", 1);
 			if (n_change != 1)
-				vf_fail(ph[phase].stale ? "model:C13:R5:network-events-on-change:stale-cni-of-silent-carrier" : "model:C13:R5:network-events-on-change", "%d NETWORK events while the station changed to another known station (phase %d, receptions %d..%d), exactly one expected; %s",
+				vf_fail(stale ? "model:C13:R5:network-events-on-change:stale-cni-of-silent-carrier" : dkey("model:C13:R5:network-events-on-change"), "%d NETWORK events while the station changed to another known station (phase %d, receptions %d..%d), exactly one expected; %s",
 					n_change, phase, ph[phase].start, ph[phase].settled - 1, desc);
 			if (ph[phase].old_probe_cached_after_settle)
-				vf_fail(ph[phase].stale ? "model:C13:R5:old-pages-kept:stale-cni-of-silent-carrier" : "model:C13:R5:old-pages-kept", "probe page %x of the previous station is still cached after the change to another known station (phase %d); %s", ph[phase].probe_before, phase, desc);
-			vf_sig("R5 carriers=%d", nact);
+				vf_fail(stale ? "model:C13:R5:old-pages-kept:stale-cni-of-silent-carrier" : dkey("model:C13:R5:old-pages-kept"), "probe page %x of the previous station is still cached after the change to another known station (phase %d); %s", ph[phase].probe_before, phase, desc);
+			vf_sig("R5 dom=%s carriers=%d", dom_name[domain], nact);
 		} else if (phase > 0 && ph[phase].changed_station) {
-			vf_count("station_changes_other", 1);
+			vf_count("station_changes_unjudged", 1);
 		}
 	}
 	del_decoder();
@@ -857,7 +938,7 @@ static int run_xds(struct vf_rng *r)
 
 	new_decoder();
 	if (!vbi) return 0;
-	domain = 3;
+	domain = D_XDS;
 	nphase = vf_range(r, 1, 4);
 	memset(ph, 0, sizeof ph);
 	desc[0] = 0; name[0] = call[0] = 0;
@@ -902,7 +983,7 @@ static int run_xds(struct vf_rng *r)
 			x->phase = phase;
 			strcpy(x->str, c ? call : name);
 			if (cooldown[c] > 0) cooldown[c]--;
-			if (!cooldown[c] && vf_chance(r, 1, 6) && !(c && (vf_param[7] & 2))) {
+			if (!cooldown[c] && vf_chance(r, 1, 6)) {
 				if (vf_chance(r, 1, 2)) { int k = (int)vf_below(r, (unsigned)strlen(x->str)); x->str[k] = x->str[k] == 'Q' ? 'R' : 'Q'; }
 				else do rand_str(r, x->str, 2, c ? 6 : 24); while (!strcmp(x->str, c ? call : name));
 				x->deviant = 1; cooldown[c] = 3;
@@ -952,7 +1033,7 @@ static int run_xds(struct vf_rng *r)
 /* exhaustive short histories: symbol = carrier (4) x value (4) */
 static int run_exh(long idx, int maxlen)
 {
-	int len, i, sym[8], o = 0, probe, pure_station = -1, mixed = 0, ndev = 0;
+	int len, i, sym[8], o = 0, probe, pure_station = -1, mixed = 0, haszero = 0, ndev = 0;
 	long n = 1, base = 0;
 	const struct station *s1 = &stations[0], *s2 = NULL;
 	struct prog pg = { (5u << 15) | (6u << 11) | (20u << 6) | 15u, 1, 0x40, 0, 0, 0, 1 };
@@ -969,11 +1050,10 @@ static int run_exh(long idx, int maxlen)
 	if (len > maxlen) return 0;
 	idx -= base;
 	for (i = 0; i < len; i++) { sym[i] = (int)(idx & 15); idx >>= 4; }
-	if (vf_param[7] & 4) for (i = 0; i < len; i++) if (sym[i] < 12 && (sym[i] & 3) == 3) return 0;   /* development aid */
 
 	new_decoder();
 	if (!vbi) return 0;
-	domain = 4;
+	domain = D_EXH;
 	memset(vps_background, 0, 13);
 	probe = tx_probe();
 	for (i = 0; i < len; i++) {
@@ -982,7 +1062,8 @@ static int run_exh(long idx, int maxlen)
 		if (c <= CR_8302) {
 			x->cni = v == 0 ? s1->cni[c] : v == 1 ? s2->cni[c] : v == 2 ? uval[c] : 0;
 			x->station = v == 0 ? s1->id : v == 1 ? s2->id : 0;
-			if (v >= 2) mixed = 1;
+			if (v == 2) mixed = 1;          /* a CNI that is not in the table next to CNIs that are: not judged below */
+			if (v == 3) haszero = 1;        /* zero: no CNI */
 		} else { x->wss = w[v]; tx_wss(x->word, &x->wss); }
 		fill_common(x, &pg, &ck);
 		o += snprintf(desc + o, sizeof desc - (size_t)o, "%s:%d ", cr_name[c], v);
@@ -992,8 +1073,10 @@ static int run_exh(long idx, int maxlen)
 	if (idx == 0 || (base + idx) % 4099 == 0) vf_sample("exhaustive history %s", desc);
 	rules_R1_R2_R3();
 
-	/* pure classes (see design note): */
+	/* pure classes (see design note): every CNI names station 1 or 2, or is zero (= the carrier sends no CNI) */
 	if (!mixed) {
+		const char *sfx = haszero ? ":zero-cni-carrier" : "";
+		char key[120];
 		/* mark single deviations: a reception whose neighbours on its carrier agree with each other but not with it */
 		int stn[8], cnt = 0, k, last_id = 0, runs = 0, n1 = 0;
 		for (i = 0; i < len; i++) {
@@ -1002,29 +1085,36 @@ static int run_exh(long idx, int maxlen)
 			p = prev_on_carrier(i);
 			for (k = i + 1; k < len; k++) if (rxs[k].carrier == rxs[i].carrier) { q = k; break; }
 			if (p >= 0 && q >= 0 && same_value(&rxs[p], &rxs[q]) && !same_value(&rxs[p], &rxs[i])) { rxs[i].deviant = 1; ndev++; continue; }
+			if (rxs[i].cni == 0) continue;
 			stn[cnt++] = rxs[i].station;
 		}
 		for (k = 0; k < cnt; k++) { if (stn[k] != last_id) { runs++; last_id = stn[k]; } if (runs == 1) n1++; }
 		if (runs == 1) {
 			/* one station throughout, apart from single deviations */
 			int nn = count_network_events(0, len, NULL);
-			if (nn > 1)
-				vf_fail(ndev ? "model:C13:R4:network-event-after-single-deviation" : "model:C13:network-event-without-change", "%d NETWORK events in history %s(one known station, %d single deviations)", nn, desc, ndev);
-			if (!cached(probe))
-				vf_fail(ndev ? "model:C13:R4:cache-cleared-after-single-deviation" : "model:C13:cache-cleared-without-change", "probe page gone after history %s(one known station, %d single deviations)", desc, ndev);
-			if (ndev) vf_sig("exh R4 len=%d ndev=%d", len, ndev);
+			if (nn > 1) {
+				snprintf(key, sizeof key, "%s%s", ndev ? "model:C13:R4:network-event-after-single-deviation" : "model:C13:network-event-without-change", sfx);
+				vf_fail(key, "%d NETWORK events in history %s(one known station, %d single deviations)", nn, desc, ndev);
+			}
+			if (!cached(probe)) {
+				snprintf(key, sizeof key, "%s%s", ndev ? "model:C13:R4:cache-cleared-after-single-deviation" : "model:C13:cache-cleared-without-change", sfx);
+				vf_fail(key, "probe page gone after history %s(one known station, %d single deviations)", desc, ndev);
+			}
+			if (ndev) vf_sig("exh R4 len=%d ndev=%d zero=%d", len, ndev, haszero);
 		} else if (runs == 2 && ndev == 0) {
 			/* S then S': was S identified, and is S' received twice in a row on some carrier? */
 			int split = 0, identified = 0, twice = 0, e;
-			for (i = 0, k = 0; i < len; i++) { if (rxs[i].carrier > CR_8302) continue; if (k == n1) { split = i; break; } k++; }
+			for (i = 0, k = 0; i < len; i++) { if (rxs[i].carrier > CR_8302 || rxs[i].cni == 0) continue; if (k == n1) { split = i; break; } k++; }
 			for (e = 0; e < n_ev; e++) if (evs[e].type == VBI_EVENT_NETWORK && evs[e].rx < split && evs[e].net.nuid) identified = 1;
 			for (i = split; i < len; i++) { int p = prev_on_carrier(i); if (rxs[i].carrier <= CR_8302 && p >= split && same_value(&rxs[p], &rxs[i])) twice = 1; }
 			if (identified && twice) {
 				int nn = count_network_events(split, len, NULL);
 				vf_count("station_changes_known_to_known", 1);
-				if (nn != 1) vf_fail("model:C13:R5:network-events-on-change", "%d NETWORK events after the change in history %s, exactly one expected", nn, desc);
-				if (cached(probe)) vf_fail("model:C13:R5:old-pages-kept", "probe page still cached after the station change in history %s", desc);
-				vf_sig("exh R5 len=%d", len);
+				snprintf(key, sizeof key, "model:C13:R5:network-events-on-change%s", sfx);
+				if (nn != 1) vf_fail(key, "%d NETWORK events after the change in history %s, exactly one expected", nn, desc);
+				snprintf(key, sizeof key, "model:C13:R5:old-pages-kept%s", sfx);
+				if (cached(probe)) vf_fail(key, "probe page still cached after the station change in history %s", desc);
+				vf_sig("exh R5 len=%d zero=%d", len, haszero);
 			}
 		}
 	}
@@ -1037,7 +1127,15 @@ static int run_case(struct vf_rng *r, long idx)
 	if (!stations) build_stations();
 	if (0 == strcmp(vf_mode, "xds")) return run_xds(r);
 	if (0 == strcmp(vf_mode, "exh")) return run_exh(idx, (int)vf_param[0]);
-	return run_hist(r);
+	{
+		struct vf_rng r2 = *r;
+		struct twin tw;
+		int have_twin;
+		memset(&tw, 0, sizeof tw);
+		have_twin = run_hist(&r2, 1, &tw) >= 0;
+		if (have_twin) vf_count("twin_histories", 1);
+		return run_hist(r, 0, have_twin ? &tw : NULL);
+	}
 }
 
 /* ---------------- self test ---------------- */
